@@ -304,6 +304,8 @@ type c16SessState struct {
 
 	acceptedSteps int
 	racySteps     int
+	stepTimes     []int64 // fake-clock instants (ms) of the accepted steps
+	pendDelayMS   int64   // sum of delay x count of the delay faults armed for this session
 	stepHung      bool
 	hungSkipped   int
 	deleted       bool
@@ -518,6 +520,7 @@ func (r *c16Run) noteResult(c c16Call, rr *c16RestResult, racy bool) {
 	case "step":
 		if resp.Status == 200 {
 			s.acceptedSteps++
+			s.stepTimes = append(s.stepTimes, rr.ms)
 			if racy {
 				s.racySteps++
 			}
@@ -686,6 +689,9 @@ func (r *c16Run) run() {
 				continue
 			}
 			s.lastFault = op.Fault.Kind
+			if op.Fault.Kind == "delay" {
+				s.pendDelayMS += op.Fault.DelayMS * int64(op.Count)
+			}
 			if op.Rep < 0 {
 				for _, rep := range s.reps {
 					r.tr.arm(s.i, rep.ID, *op.Fault, op.Count)
@@ -1140,6 +1146,19 @@ func (r *c16Run) checkSession(s *c16SessState, qs []*c16Req, endMS int64) {
 		for _, rep := range s.reps {
 			n := len(rep.media)
 			lo, hi := s.acceptedSteps-s.racySteps, s.acceptedSteps
+			if s.deleted && s.pendDelayMS > 0 {
+				// a receiver that holds uploads back keeps the sender behind its steps; DELETE stops the session
+				// with those segments unsent ("nothing after DELETE" wins over "one segment per step")
+				lo = 0
+				for _, t := range s.stepTimes {
+					if t+s.pendDelayMS+1000 < s.deleteMS {
+						lo++
+					}
+				}
+				if d := s.acceptedSteps - s.racySteps; d < lo {
+					lo = d
+				}
+			}
 			if n < lo || n > hi {
 				kind := "fewer"
 				if n > hi {
